@@ -114,9 +114,9 @@ pub fn observe_eig(c: &EigCase) -> String {
 pub fn gen_eig(rng: &mut Rng, _profile: &str, size: usize) -> EigCase {
     let weighted = rng.chance(50);
     let o = GenOpts {
-        max_nodes: size, min_nodes: 1,
+        max_nodes: size, min_nodes: if size > 20 { 21 } else { 1 },
         weights: if weighted { WeightMode::NonNegative } else if rng.chance(50) { WeightMode::Unweighted } else { WeightMode::Mixed },
-        allow_multi: rng.chance(10), allow_loops: true, directed: None, density_pct: 30,
+        allow_multi: rng.chance(10), allow_loops: true, directed: None, density_pct: if size > 20 { 9 } else { 30 },
     };
     let max_iter = *rng.pick(&[1u32, 2, 3, 5, 10, 30, 100, 100, 300]);
     let tol_exp = rng.range(2, 12) as u32;
